@@ -19,16 +19,20 @@ Local Open Scope char_scope.
 (** [fx2]: C08-F2 repaired (a779db8); [fx3]: C08-F3 repaired (72ba5d4); [fxq]: C15-F1 repaired
     (41fd1db: QueryParamsRemover also works on a query that does not parse; it only
     concerns the query of the upstream URL, which no C08 theorem talks about);
+    [fxq6]: C15-F6 (5270ed2: the query parameters are always removed setting by setting);
+    [fx6]: C08-F6 repaired (candidate fixes/C08-F6.diff: an X-Forwarded-Uri that does not parse is used as it is);
     [fx5]: C08-F5 repaired (6d0a3af: captured values are decoded piece by piece around the
     encoded slashes, without a place-holder) *)
-Record fixes := { fx2 : bool; fx3 : bool; fxq : bool; fx5 : bool }.
-Definition pinned : fixes := {| fx2 := false; fx3 := false; fxq := false; fx5 := false |}.
+Record fixes := { fx2 : bool; fx3 : bool; fxq : bool; fx5 : bool; fxq6 : bool; fx6 : bool }.
+Definition pinned : fixes := {| fx2 := false; fx3 := false; fxq := false; fx5 := false; fxq6 := false; fx6 := false |}.
 (** the tree as it is now *)
-Definition repaired : fixes := {| fx2 := true; fx3 := true; fxq := true; fx5 := true |}.
+Definition repaired : fixes := {| fx2 := true; fx3 := true; fxq := true; fx5 := true; fxq6 := true; fx6 := false |}.
+(** the tree with the candidate repair of C08-F6 *)
+Definition repaired_F6 : fixes := {| fx2 := true; fx3 := true; fxq := true; fx5 := true; fxq6 := true; fx6 := true |}.
 (** the tree before 6d0a3af (kept to document finding C08-F5) *)
-Definition before_F5 : fixes := {| fx2 := true; fx3 := true; fxq := true; fx5 := false |}.
+Definition before_F5 : fixes := {| fx2 := true; fx3 := true; fxq := true; fx5 := false; fxq6 := false; fx6 := false |}.
 (** the tree after a779db8 alone *)
-Definition fixed_F2 : fixes := {| fx2 := true; fx3 := false; fxq := false; fx5 := false |}.
+Definition fixed_F2 : fixes := {| fx2 := true; fx3 := false; fxq := false; fx5 := false; fxq6 := false; fx6 := false |}.
 
 Inductive setting := Off | On | NoDecode.
 
@@ -265,6 +269,30 @@ Fixpoint dfs (ok : cand -> bool) (cs : list cand) (segs : list string) : option 
     end
   end.
 
+(** the same search, giving up as soon as no candidate is left (the tree has no node
+    to descend into); [dfs_fast ok cs segs = dfs ok cs segs] is proved in C08/Proofs.v.
+    Without this the evaluation of [dfs] on an empty candidate list still tries the
+    static and the wildcard branch at every level (2^n steps on a path of n segments). *)
+Fixpoint dfs_fast (ok : cand -> bool) (cs : list cand) (segs : list string) : option cand :=
+  match cs with
+  | [] => None
+  | _ =>
+    match segs with
+    | [] => first_ok ok (filter_map at_end cs)
+    | s :: r =>
+      match dfs_fast ok (filter_map (step_lit s) cs) r with
+      | Some x => Some x
+      | None =>
+        match (if is_empty s then None else dfs_fast ok (filter_map (step_wild s) cs) r) with
+        | Some x => Some x
+        | None =>
+          let rest := join_with "/" segs in
+          if is_empty rest then None else first_ok ok (filter_map (step_catch_all rest) cs)
+        end
+      end
+    end
+  end.
+
 Definition cands_of (rules : list rule) : list cand :=
   flat_map (fun r => map (fun rt => {| cd_rule := r; cd_route := rt; cd_pat := rt_pat rt; cd_caps := [] |})
                          (r_routes r)) rules.
@@ -275,7 +303,7 @@ Definition cand_ok (fx : fixes) (rawpath : string) (c : cand) : bool :=
 Definition find_rule (fx : fixes) (rules : list rule) (u : hurl) : option cand :=
   match path_segs (lookup_path u) with
   | None => None
-  | Some segs => dfs (cand_ok fx (u_rawpath u)) (cands_of rules) segs
+  | Some segs => dfs_fast (cand_ok fx (u_rawpath u)) (cands_of rules) segs
   end.
 
 (** * execution *)
@@ -291,7 +319,7 @@ Definition execute (fx : fixes) (rid : string) (is_default : bool) (st : setting
            (be : option backend) (u : hurl) (cs : caps) : outcome :=
   let go (u' : hurl) :=
     Accepted rid is_default (map (fun kv => (fst kv, unescape_capture fx st (snd kv))) cs)
-             (option_map (fun b => create_url_fx (fxq fx) b u') be) in
+             (option_map (fun b => create_url_q {| qf1 := fxq fx; qf6 := fxq6 fx |} b u') be) in
   match st with
   | On => go {| u_scheme := u_scheme u; u_host := u_host u; u_path := u_path u;
                 u_rawpath := EmptyString; u_query := u_query u |}
@@ -322,6 +350,37 @@ Definition view_envoy (host raw query : string) : hurl :=
 
 Definition serve_envoy (fx : fixes) (rules : list rule) (dflt : bool) (host raw query : string) : outcome :=
   serve_view fx rules dflt (view_envoy host raw query).
+
+(** requestcontext.extractURL when the request carries X-Forwarded-Uri (decision
+    mode behind a proxy: the proxy asks heimdall at the path [own] and hands the
+    original request target over in the header).  The header value is parsed with
+    url.Parse; modelled for values [raw]?[query] whose path starts with one '/' and
+    has no '#'.  If it does not parse (malformed escape) the code AS IT
+    IS silently falls back to the target of the proxy's own request (finding
+    C08-F6); [fx6] = the candidate repair fixes/C08-F6.diff: the value is then taken
+    as it is, like the Envoy entry does.  The query is re-encoded from the parsed
+    values (url.Values.Encode: sorted, unparsable settings dropped). *)
+Definition ctl_byte (c : ascii) : bool := (nb c <? 32)%N || (nb c =? 127)%N.
+
+Fixpoint has_ctl (s : string) : bool :=
+  match s with
+  | EmptyString => false
+  | String c r => ctl_byte c || has_ctl r
+  end.
+
+Definition view_xfu (fx6 : bool) (host own raw query : string) : option hurl :=
+  let fallback := if fx6 then Some (view_envoy host raw query) else view host own "" in
+  if has_ctl raw || has_ctl query then None   (* net/http refuses the header field: 400 *)
+  else match set_path raw with
+       | None => fallback
+       | Some (p, rp) => Some (view_of host p rp (values_encode (fst (parse_query query))))
+       end.
+
+Definition serve_xfu (fx : fixes) (rules : list rule) (dflt : bool) (host own raw query : string) : outcome :=
+  match view_xfu (fx6 fx) host own raw query with
+  | None => BadRequest
+  | Some u => serve_view fx rules dflt u
+  end.
 
 (** * equality tests for the evaluator *)
 
